@@ -232,7 +232,7 @@ template <int N, typename T> static void op_adjugate(const Case& c, Outcome& o) 
 }
 
 // ------------------------------------------------------------------ gtx diagonalCxR     words: [index into {-2..2}^4 (values scaled by 0.5)]
-template <int C, int R_, typename T, typename V> static bool diag_ok(const glm::mat<C, R_, T, glm::defaultp>& m, const V& v, int n, Outcome& o, int which) {
+template <glm::length_t C, glm::length_t R_, typename T, typename V> static bool diag_ok(const glm::mat<C, R_, T, glm::defaultp>& m, const V& v, int n, Outcome& o, int which) {
   for (int c = 0; c < C; ++c) for (int r = 0; r < R_; ++r) { T want = (c == r) ? (c < n ? v[c] : (T)1) : (T)0;
     if (c == r && c >= n) continue;   // a diagonal slot beyond the vector does not exist for these shapes (min(C,R) == length of v)
     if (!(m[c][r] == want)) { o.res(FT<T>::bits(m[c][r]), (uint64_t)(which * 100 + c * 4 + r)); o.exp(FT<T>::bits(want)); o.bad(41, "diagonalCxR(v): not v on the diagonal and 0 elsewhere"); return false; } }
